@@ -301,7 +301,7 @@ func runC13(c *mon.Ctx) {
 		c.Count("read_back", 1)
 	}
 
-	c.Each("track-recordings", c.N(1500, 50_000), func(i int64, r *mon.Rand) {
+	c.Each("track-recordings", c.N(10_000, 100_000), func(i int64, r *mon.Rand) {
 		record(r, fmt.Sprintf("track-%d", i), 0)
 		if i < 1 {
 			c.Sample("recording", "Track.RecordFrom on a testdrv loopback; see rule")
